@@ -1,5 +1,6 @@
 """C03 - unique and set indexes mirror entity state; uniqueness is enforced."""
 import json
+import re
 
 import storefam
 import storefamx
@@ -162,10 +163,12 @@ def index_read_oracle(sch, tx):
                 for (s2, f2, v), got in sorted(uread.items()):
                     if (s2, f2) == (sname, field) and v not in probed:
                         probs.append("unique index %s.%s: Read(%s) = %s for a value that was not probed" % (sname, field, v, got))
-            elif c[0] == "SI" and not sd["parent"]:
+            elif c[0] == "SI":
                 setf = c[1]
                 want = {}
                 for i in ents.get(root, ()):
+                    if sd["parent"] and (root, i, sname) not in child:
+                        continue  # a set index owned by a child store lists the entities that live in that child store
                     for m in setm.get((root, i, setf), ()):
                         want.setdefault(m, set()).add(i)
                 for v in probed:
@@ -180,6 +183,76 @@ def index_read_oracle(sch, tx):
                     probs.append("set index %s.%s: ReadKeys lists %s but the values held are %s" % (
                         sname, setf, sorted(_unhex(x) for x in gk), sorted(_unhex(x) for x in wk)))
     return probs
+
+
+class _RootIndexView:
+    """the schema without the set indexes owned by child stores (storefam.index_oracle reads a set index as one over
+    all entities of the root store)"""
+
+    def __init__(self, sch):
+        self.order = sch.order
+        self.root = sch.root
+        self.stores = {}
+        for n, sd in sch.stores.items():
+            self.stores[n] = dict(sd, cons=[c for c in sd["cons"] if not (c[0] == "SI" and sd["parent"])]) if sd["parent"] else sd
+
+
+def child_set_index_oracle(sch, facts):
+    """A set index owned by a CHILD store c over the string list f (of the parent): rows exactly for the entities that
+    live in c, under exactly the members of their list; no rows for deleted entities, no stale members, no empty keys."""
+    owned = [(n, c[1]) for n in sch.order if sch.stores[n]["parent"] for c in sch.stores[n]["cons"] if c[0] == "SI"]
+    if not owned:
+        return []
+    ents, setm, child = {}, {}, set()
+    for f in facts:
+        p = f.split(":")
+        if p[0] == "E":
+            ents.setdefault(p[1], set()).add(p[2])
+        elif p[0] == "S":
+            setm.setdefault((p[1], p[2], p[3]), set()).add(p[4])
+        elif p[0] == "C":
+            child.add((p[1], p[2], p[3]))
+    probs = []
+    for cname, setf in owned:
+        root = sch.root(cname)
+        if any(c[0] == "SI" and c[1] == setf for n in sch.order if n != cname and sch.root(n) == root for c in sch.stores[n]["cons"]):
+            continue  # two stores of the family share the bucket: not a shape the property speaks about
+        want = set((m, i) for i in ents.get(root, ()) if (root, i, cname) in child for m in setm.get((root, i, setf), ()))
+        have, keys = set(), set()
+        for f in facts:
+            p = f.split(":")
+            if p[0] == "X" and p[1] == root and p[2] == setf:
+                have.add((p[3], p[4]))
+            elif p[0] == "XK" and p[1] == root and p[2] == setf:
+                keys.add(p[3])
+        for m, i in sorted(have - want):
+            if i not in ents.get(root, ()):
+                probs.append("set index %s.%s: entry %s -> %s for an entity that does not exist" % (cname, setf, m, i))
+            elif (root, i, cname) not in child:
+                probs.append("set index %s.%s: entry %s -> %s for an entity that does not live in %s" % (cname, setf, m, i, cname))
+            else:
+                probs.append("set index %s.%s: stale entry %s -> %s" % (cname, setf, m, i))
+        for m, i in sorted(want - have):
+            probs.append("set index %s.%s: entity %s holds %s but is not indexed" % (cname, setf, i, m))
+        for k in sorted(keys - set(m for m, _ in have)):
+            probs.append("set index %s.%s: empty index key %s left behind" % (cname, setf, k))
+    return probs
+
+
+def mirror_oracle(sch, facts):
+    """index mirrors entities, for every index of every store of the schema (root and child stores)"""
+    probs = storefam.index_oracle(_RootIndexView(sch), facts) + child_set_index_oracle(sch, facts)
+    ents = set(tuple(f.split(":")[1:3]) for f in facts if f.startswith("E:"))
+    out = []
+    for pr in probs:
+        m = _STALE_UNIQUE.match(pr)
+        if m and m.group(1) in sch.stores and (sch.root(m.group(1)), m.group(4)) not in ents:
+            pr = "unique index %s.%s: entry %s -> %s for an entity that does not exist" % m.groups()
+        out.append(pr)
+    return out
+
+
+_STALE_UNIQUE = re.compile(r"^unique index ([^.]+)\.([^:]+): stale entry (\S+) -> (\S+)$")
 
 
 def bogus_duplicate_oracle(sch, tx_toks, results, before):
@@ -250,7 +323,7 @@ def _oracle(sch, txs, io, mo):
         if a["commit"]:
             mp = misplaced_index_oracle(sch, a["facts"], a.get("other", ()))
             if mp:
-                cons = storefam.index_oracle(sch, a["facts"])
+                cons = mirror_oracle(sch, a["facts"])
                 out.append(("C03:index-misplaced", "after a committed transaction: " + "; ".join(mp[:3]) +
                             ((" -- hence " + "; ".join(cons[:2])) if cons else ""), k))
                 break
@@ -258,7 +331,7 @@ def _oracle(sch, txs, io, mo):
             if nn:
                 out.append(("C03:nonnull-unique-empty", "after a committed transaction: " + "; ".join(nn[:3]), k))
                 break
-            probs = storefam.index_oracle(sch, a["facts"])
+            probs = mirror_oracle(sch, a["facts"])
             if probs:
                 kind = "unique" if probs[0].startswith("unique") else ("set" if probs[0].startswith("set") else "junk")
                 out.append(("C03:index-mirror-" + kind, "after a committed transaction: " + "; ".join(probs[:3]), k))
@@ -300,6 +373,23 @@ def _minimal_prefix(c):
     c.violation = violation
 
 
+def _family_wirings_in_sync(c):
+    """the family schemas of Examples/C03Wirings.v (wf_* checked there by computation) are the text the harness prints
+    from the wirings it runs (store_c03f.go c03fCoqText, left in the work directory by every store_c03s run)"""
+    import os
+    gen = os.path.join(c.work, "c03f_wirings.v")
+    if c.replay or not os.path.exists(gen):
+        return None
+    text = open(os.path.join(vlib.VERIF, "coq", "theories", "Examples", "C03Wirings.v")).read()
+    a, b = "(* BEGIN generated by storageharness store_c03f_coq *)\n", "(* END generated by storageharness store_c03f_coq *)"
+    if a not in text or b not in text:
+        return "Examples/C03Wirings.v has no generated section for the family wirings of store_c03f.go"
+    if text.split(a, 1)[1].split(b, 1)[0] != open(gen).read():
+        return ("the family schemas in Examples/C03Wirings.v differ from the wirings the harness runs (store_c03f.go): "
+                "regenerate the section with `storageharness store_c03f_coq`")
+    return None
+
+
 def main(argv):
     c = vlib.Check(PID, argv)
     _minimal_prefix(c)
@@ -328,8 +418,18 @@ def main(argv):
                         "-0.0, NaN, +-Inf, zero time, times 1 ns apart, a time without RFC 3339 text, numbers whose raw bytes are the decimal text of "
                         "another member); their warm histories also change a unique value by FULL updates. A transaction whose first operation is "
                         "refused with UniqueIndexDuplicateError is checked against the facts observed before it: some unique index of the family must "
-                        "map a value the operation supplies to another entity (unique_duplicate_only_when_held_update / _create).",
+                        "map a value the operation supplies to another entity (unique_duplicate_only_when_held_update / _create). "
+                        "A further third of the histories (fourth random stream, store_c03f.go) runs on store FAMILIES: one parent store with two or three "
+                        "child stores, plain and Extended(), in every registration order (extended first / in the middle / last), unique indexes on "
+                        "every level, the parent's set index, a set index owned by a child store, cascades from an owner store through the parent and "
+                        "through a child store; besides live and warm histories, systematic family histories create an entity through each store of "
+                        "the family and delete it through each store of the family (or by the cascade), with an update in between, and create the same "
+                        "unique values and set members again. The Coq schemas of these wirings (wf_unique_b / wf_cunique_b / wf_setidx_b by computation "
+                        "in Examples/C03Wirings.v) are printed by the harness and compared with that file on every run.",
                         command="store_c03s")
+    stale = _family_wirings_in_sync(c)
+    if stale:
+        c.violation(PID + ":proof", stale, dict(broken="Examples/C03Wirings.v vs harness wirings"), no_input=True)
     if not proof_ok:
         c.violation(PID + ":proof", "proof obligation no longer checks: %s" % json.dumps(c.proof_broken)[:600],
                     dict(broken=c.proof_broken), no_input=True)
